@@ -260,6 +260,11 @@ def cases(tier, seed):
                     if r in (2, 3) and '$TIMESTEP' not in present and 'TIMETICKS' not in present and tier == 'quick':
                         continue
                     yield dict(kind='timenames', present=list(present), creator=None, timech=names)
+    # (A5) two files loaded one after the other in the same process: what the first file says must not influence how the second is read
+    dates = [x for x in DATEFMT if x] + ['99-Dec-24', '07-Aug-09', '45-Jan-30', '12-Mar-11', '2009-Aug-07']
+    for i, da in enumerate(dates):
+        yield dict(kind='sequence', first=[{'$DATE': da, '$BTIM': TIMEFMT[i % len(TIMEFMT)], '$ETIM': '23:00:00'}],
+                   then=[{'$DATE': db, '$BTIM': '10:05:07', '$ETIM': TIMEFMT[j % len(TIMEFMT)]} for j, db in enumerate(dates)])
     # (B) formats
     for bt in TIMEFMT:
         for et in TIMEFMT:
@@ -329,6 +334,21 @@ def eq(a, b):
 
 def run_case(c):
     import FlowCal
+    if c['kind'] == 'sequence':
+        res = Result()
+        for first in c['first']:
+            for then in c['then']:
+                for vals in (first, then):
+                    sub = run_case(dict(kind='sequence-step', present=sorted(vals), values=dict(vals), creator=None, timech=None))
+                    if vals is then:
+                        for v in sub.violations:
+                            res.violations.append({'sig': 'sequence:' + v['sig'], 'msg': 'after a file with %r was loaded in the same process: %s' % (first, v['msg']),
+                                                   'case': dict(kind='sequence', first=[first], then=[then])})
+                        res.n += sub.n
+                        res.nontrivial += sub.nontrivial
+                        res.classes.update(sub.classes)
+        res.sample({'first file': c['first'][0], 'then': len(c['then'])})
+        return res
     res = Result()
     lay, kw, names, pne, ranges, events = make(c)
     buf, info = fcsgen.build(lay)
